@@ -741,15 +741,7 @@ func (r *multiCIDRRangeAllocator) ReleaseCIDR(logger klog.Logger, node *corev1.N
 	r.lock.Lock()
 	defer r.lock.Unlock()
 
-	if node == nil {
-		return nil
-	}
-	if len(node.Spec.PodCIDRs) == 0 {
-		// Nothing to release. An association can still exist, left by a write whose outcome was
-		// unknown and that turned out not to have been applied: drop it.
-		for _, clusterCIDR := range r.associatedClusterCIDRs(node) {
-			delete(clusterCIDR.AssociatedNodes, node.Name)
-		}
+	if node == nil || len(node.Spec.PodCIDRs) == 0 {
 		return nil
 	}
 
